@@ -3,7 +3,9 @@
 (* per component class the constructor keywords that no write() stores.       *)
 EXTENDS Output, OutputReg
 VARIABLE x
-ASSUME PrintT(<<"REB", ToJson({[name |-> c.name, lost |-> LostKeys(c), rebuilt |-> Rebuilt(c)] : c \in MCComponents})>>)
+\* constructor keywords that the component sweep of the driver leaves at their default without saying why
+Unswept(c) == (c.params \ (c.supplied \cup c.exempt)) \ c.given
+ASSUME PrintT(<<"REB", ToJson({[name |-> c.name, lost |-> LostKeys(c), rebuilt |-> Rebuilt(c), unswept |-> Unswept(c), distinct |-> c.distinct] : c \in MCComponents})>>)
 Init == x = 0
 Next == UNCHANGED x
 Spec == Init /\ [][Next]_x
@@ -12,6 +14,5 @@ RebuildSound == \A c \in MCComponents : Rebuilt(c) \subseteq c.written
 \* the component sweep of the driver is in the "distinct" input class of MC_OutputWr for every component: every
 \* constructor keyword that the loader does not fill from elsewhere (and that is not explicitly exempted) is given a
 \* non-default value, and the numeric values of one component are pairwise distinct
-SweepComplete == \A c \in MCComponents : /\ (c.params \ (c.supplied \cup c.exempt)) \subseteq c.given
-                                         /\ c.distinct
+SweepComplete == \A c \in MCComponents : Unswept(c) = {} /\ c.distinct
 =============================================================================
